@@ -104,5 +104,63 @@ def rule_v3(repo):
     return res
 
 
+def rule_v4(repo):
+    """The normaliser / solver keep process-wide memo tables keyed by the term alone.  They are read
+    only when no side conditions were supplied; they must be written under the same restriction, or a
+    result proved under conditions is later handed out where none were supplied."""
+    res = RuleResult('C10.V4', 'a process-wide memo of conversion results is written only under the conditions under which it is read', floor=2)
+    AUTO = 'logic/auto.py'
+    m = repo.module(AUTO)
+    memos = set()
+    for n in m.tree.body:
+        if isinstance(n, ast.Assign) and len(n.targets) == 1 and isinstance(n.targets[0], ast.Name) and \
+                (isinstance(n.value, ast.Dict) or (isinstance(n.value, ast.Call) and call_name(n.value) == 'dict')):
+            memos.add(n.targets[0].id)
+    need(memos, 'logic/auto.py: no module-level memo table found')
+
+    def guards(cfg, node, params, memo):
+        sig = set()
+        for t in cfg.test_nodes():
+            if t is node:
+                continue
+            names = {x.id for x in ast.walk(t.ast) if isinstance(x, ast.Name)}
+            if memo in names or not (names & set(params)):
+                continue
+            for label in ('true', 'false'):
+                if cfg.path_avoiding(node, skip_edges={(t.id, label)}) is None and cfg.path_avoiding(node, skip_nodes=[t]) is None:
+                    sig.add((src(t.ast, 80), label == 'true'))
+        return sig
+
+    for f in m.functions.values():
+        cfg = cfg_of(f.node)
+        params = f.params()
+        for memo in sorted(memos):
+            reads, writes = [], []
+            for n in cfg.nodes:
+                for h in cfg.headers(n):
+                    for x in ast.walk(h):
+                        if isinstance(x, ast.Subscript) and is_name(x.value, memo):
+                            (writes if isinstance(x.ctx, ast.Store) else reads).append(n)
+                        cp = compare_parts(x) if isinstance(x, ast.Compare) else None
+                        if cp and cp[0] in (ast.In, ast.NotIn) and is_name(cp[2], memo):
+                            reads.append(n)
+            if not reads or not writes:
+                continue
+            rg = None
+            for r in reads:
+                g = guards(cfg, r, params, memo)
+                rg = g if rg is None else (rg & g)
+            for w in writes:
+                wg = guards(cfg, w, params, memo)
+                missing = sorted(rg - wg)
+                fmt = lambda s: ', '.join(('' if pol else 'not ') + t for t, pol in s) or 'nothing'
+                res.add('%s :: %s :: memo(%s)' % (AUTO, f.qualname, memo), not missing,
+                        'read and written under: %s' % fmt(sorted(rg)) if not missing else
+                        'the table is read only when [%s] but written also otherwise (line %d): a result obtained with side conditions is '
+                        'returned later although none were supplied, with hypotheses nobody gave' % (fmt(missing), w.lineno),
+                        '%s:%d' % (AUTO, w.lineno))
+    return res
+
+
 def rules(repo):
-    return [rule_v1(repo), rule_v2(repo), rule_v3(repo)]
+    return [rule_v1(repo), rule_v2(repo), rule_v3(repo), rule_v4(repo)]
